@@ -12,7 +12,8 @@ from . import c01
 ob = Registry()
 
 
-@ob('C07.1', 'WMW/DOM', 'event_path is mutated only in dispatch, by append(self.name) guarded by `self.name not in event.event_path`')
+@ob('C07.1', 'WMW/DOM', 'event_path is mutated only in dispatch: by append(self.name) guarded by `self.name not in event.event_path`, and by taking that same entry back (pop of the last '
+    'entry, tested to be this bus, added by this very call) on a path that ends in raising — a rejected dispatch')
 def c07_1(c: Ctx) -> None:
     ws = c.cg.all_writes('event_path')
     c.floor(len(ws), 1, 'writes of event_path')
